@@ -61,7 +61,7 @@ EXTENDS Integers, Sequences, FiniteSets, TLC
 CONSTANTS MaxSrv,      \* server events per history
           MaxCli,      \* client events (calls + stdin reader events) per history
           Cfgs,        \* set of session configurations [stdin: "nil"|"reader", outs: "nil"|"buf"]
-          Lite         \* BOOLEAN: reduced alphabets for deeper histories
+          Lite         \* alphabets: "full" | "lite" (reduced, deeper histories) | "srv" (one start call, then the server acts)
 
 VARIABLES S, hist
 
@@ -75,7 +75,7 @@ SigNum(sig) == IF sig = "KILL" THEN 9 ELSE IF sig = "TERM" THEN 15 ELSE 0    \* 
 
 Init0(c) ==
   [cfg |-> c, started |-> FALSE, inpipe |-> FALSE, outpipe |-> FALSE, errpipe |-> FALSE,
-   outW |-> IF c.outs = "buf" THEN -1 ELSE 0,      \* s.Stdout: 0 nil, -1 the user's writer, i > 0 the buffer of call i
+   outW |-> IF c.outs = "buf" THEN -1 ELSE 0,      \* s.Stdout: 0 nil, -1 the user's writer, -2 io.Discard, i > 0 the buffer of call i
    errW |-> IF c.outs = "buf" THEN -1 ELSE 0,
    outMode |-> "none", errMode |-> "none",         \* who consumes the stream: "none" | "pipe" (StdoutPipe reader) | "copy"
    calls |-> <<>>, reqWaiter |-> 0, waiter |-> 0, wph |-> "", wres |-> NoRes, waited |-> FALSE,
@@ -87,9 +87,10 @@ Init0(c) ==
    sKA |-> "none", ka |-> "",
    exits |-> <<>>,                                   \* ghost: exit-* requests the server sent while the channel was open
    nStartOk |-> 0,                                   \* ghost: start calls that succeeded
+   ioRace |-> FALSE,                                 \* see TakeExit
    out |-> <<>>, done |-> {}, last |-> Ev("init", "", 0), ns |-> 0, nc |-> 0]
 
-Begin(s, e) == [s EXCEPT !.out = <<>>, !.done = {}, !.last = e, !.ka = ""]
+Begin(s, e) == [s EXCEPT !.out = <<>>, !.done = {}, !.last = e, !.ka = "", !.ioRace = FALSE]
 Emit(s, p) == [s EXCEPT !.out = Append(@, p)]
 Finish(s, c, res) ==
   IF c = 0 THEN s
@@ -133,11 +134,16 @@ AwaitedErr(s) == \/ s.cpIn = "err"
                  \/ (s.errMode = "copy" /\ s.cpErr = "err")
 
 \* Wait after it received the exit result: closes stdinPipeWriter (the stdin copy then sees EOF and does CloseWrite)
+\* ioRace: when the connection is lost (no close handshake) mux.loop runs channel.close(), which closes the
+\* request stream BEFORE it sets sentClose; Session.wait and Wait wake up, the stdin copy does CloseWrite and may
+\* still reach the dead connection, whose write error (not io.EOF) becomes the copy result: Wait may then return
+\* that I/O error instead of nil ("Other error types may be returned for I/O problems").  The model returns the
+\* result without the race and flags the step; the binding accepts a non-nil non-Exit error in place of nil there.
 TakeExit(s) ==
   LET s1 == [s EXCEPT !.exitAvail = FALSE, !.wph = "copies", !.wres = s.exitRes] IN
   IF s1.cfg.stdin = "reader" /\ ~s1.inpipe /\ s1.pipeW = "open"
     THEN LET s2 == [s1 EXCEPT !.pipeW = "closed"] IN
-         IF s2.cpIn = "run" THEN [SendEOF(s2) EXCEPT !.cpIn = "ok"] ELSE s2
+         IF s2.cpIn = "run" THEN [SendEOF(s2) EXCEPT !.cpIn = "ok", !.ioRace = (s2.dead /\ s2.last.k = "sdrop")] ELSE s2
     ELSE s1
 
 WaitCall(s) ==
@@ -162,8 +168,10 @@ DoStart(s) ==
       s2 == IF s1.inpipe THEN s1
             ELSE IF s1.cfg.stdin = "nil" THEN [SendEOF(s1) EXCEPT !.cpIn = "ok"]    \* io.Copy of an empty buffer, then CloseWrite
             ELSE [s1 EXCEPT !.cpIn = "run"]
-      s3 == IF s2.outpipe THEN s2 ELSE [s2 EXCEPT !.outMode = "copy", !.cpOut = "run"]
-  IN IF s3.errpipe THEN s3 ELSE [s3 EXCEPT !.errMode = "copy", !.cpErr = "run"]
+      s3 == IF s2.outpipe THEN s2                        \* a nil writer becomes io.Discard (-2)
+            ELSE [s2 EXCEPT !.outMode = "copy", !.cpOut = "run", !.outW = IF @ = 0 THEN -2 ELSE @]
+  IN IF s3.errpipe THEN s3
+     ELSE [s3 EXCEPT !.errMode = "copy", !.cpErr = "run", !.errW = IF @ = 0 THEN -2 ELSE @]
 
 EnterWait(s, c) == [s EXCEPT !.waited = TRUE, !.waiter = c, !.wph = "exit"]
 
@@ -204,7 +212,7 @@ SrvStep(s0, e) ==
     [] e.k = "ska" ->                              \* want-reply request of another type: Session.wait answers failure
          IF s.waitG = "run" THEN [Emit(s, "fail") EXCEPT !.ka = "false"] ELSE [s EXCEPT !.sKA = "pending"]
     [] e.k = "sclose" -> OnClosed(Emit(s, "close"))    \* the client's mux answers close, then channel.close()
-    [] e.k = "sdrop" -> [OnClosed(s) EXCEPT !.dead = TRUE])
+    [] e.k = "sdrop" -> OnClosed([s EXCEPT !.dead = TRUE]))
 
 FullSrvEvents(s) ==
   IF s.closed THEN {}
@@ -223,12 +231,21 @@ LiteSrvEvents(s) ==
        \cup {Ev("seof", "", 0) : x \in IF s.sEOF THEN {} ELSE {1}}
        \cup {Ev("sexit", "", 0), Ev("sexit", "", 3), Ev("ssig", "KILL", 1), Ev("sexitbad", "", 0), Ev("sclose", "", 0)}
 
-SrvEvents(s) == IF Lite THEN LiteSrvEvents(s) ELSE FullSrvEvents(s)
+SrvCentricEvents(s) ==
+  IF s.closed THEN {}
+  ELSE {Ev("sreply", v, 0) : v \in IF s.reqWaiter # 0 THEN {"ok", "fail"} ELSE {}}
+       \cup {Ev("sdata", v, 0) : v \in IF s.sEOF THEN {} ELSE {"out", "err"}}
+       \cup {Ev("seof", "", 0) : x \in IF s.sEOF THEN {} ELSE {1}}
+       \cup {Ev("sexit", "", 0), Ev("sexit", "", 3), Ev("ssig", "KILL", 1), Ev("ssig", "USR1", 0),
+             Ev("sexitbad", "", 0), Ev("ssigbad", "", 0), Ev("sclose", "", 0), Ev("sdrop", "", 0)}
+       \cup {Ev("ska", "", 0) : x \in IF s.sKA = "none" THEN {1} ELSE {}}
+
+SrvEvents(s) == IF Lite = "lite" THEN LiteSrvEvents(s) ELSE IF Lite = "srv" THEN SrvCentricEvents(s) ELSE FullSrvEvents(s)
 
 -----------------------------------------------------------------------------
 (* client events *)
 
-NewCall(s, e) == [s EXCEPT !.calls = Append(@, [k |-> e.k, st |-> "wait", res |-> NoRes])]
+NewCall(s, e) == [s EXCEPT !.calls = Append(@, [k |-> e.k, v |-> e.v, st |-> "wait", res |-> NoRes])]
 Me(s) == Len(s.calls)
 IsCall(e) == e.k \notin {"feed", "feedeof", "feederr"}
 
@@ -310,14 +327,19 @@ LiteCliEvents(s) ==
   \cup {Ev(k, "", 0) : k \in IF s.inpipe THEN {"pwrite", "pclose"} ELSE {}}
   \cup {Ev(k, "", 0) : k \in IF s.cfg.stdin = "reader" /\ s.started /\ s.rd = "open" THEN {"feed", "feedeof"} ELSE {}}
 
-CliEvents(s) == IF Lite THEN LiteCliEvents(s) ELSE FullCliEvents(s)
+SrvCentricCliEvents(s) ==
+  {Ev(k, "", 0) : k \in IF s.calls = <<>> THEN {"start", "run", "output", "combined"} ELSE {}}
+  \cup {Ev("wait", "", 0) : x \in IF s.waited \/ ~s.started THEN {} ELSE {1}}
+  \cup {Ev(k, "", 0) : k \in IF s.cfg.stdin = "reader" /\ s.started /\ s.rd = "open" THEN {"feed", "feedeof"} ELSE {}}
+
+CliEvents(s) == IF Lite = "lite" THEN LiteCliEvents(s) ELSE IF Lite = "srv" THEN SrvCentricCliEvents(s) ELSE FullCliEvents(s)
 
 -----------------------------------------------------------------------------
 Init == \E c \in Cfgs : S = Init0(c) /\ hist = <<>>
 
 Obs(s) == [ev |-> s.last, out |-> s.out, done |-> s.done, go |-> s.gotOut, ge |-> s.gotErr,
            om |-> s.outMode, em |-> s.errMode, ow |-> s.outW, ew |-> s.errW,
-           si |-> s.srvIn, ka |-> s.ka, closed |-> s.closed]
+           si |-> s.srvIn, ka |-> s.ka, closed |-> s.closed, race |-> s.ioRace]
 
 Srv == /\ S.ns < MaxSrv
        /\ \E e \in SrvEvents(S) : S' = SrvStep(S, e) /\ hist' = Append(hist, Obs(S'))
